@@ -37,7 +37,7 @@ def run(case):
                 if d is None:
                     ev = Event("msg", 0, rid, data=tag); extra = 0
                 else:
-                    ev = DelayedEvent("msg", 0, rid, delay=d * dt, data=tag); extra = d   # ceil((d*dt)/dt) = d
+                    ev = DelayedEvent("msg", 0, rid, delay=d * dt, data=tag); extra = int(math.ceil(d))   # ceil((d*dt)/dt)
                 m.enqueue_event(ev)
                 expected.append([tag, rid, g + extra])
             elif k == "delete":
@@ -71,12 +71,9 @@ def run(case):
             plain = [t for t in tags if t[0] == "p"]
             if plain != sorted(plain, key=lambda t: int(t[1:])):
                 return "agent %d handled same-step events in order %r" % (aid, plain)
-    late = [x for x in expected if x[2] < total and x[1] in live and not [l for l in LOG if l[0] == x[0]]]
-    if late:
-        return "event %r was never handled" % (late[0],)
     return None
 
-case = {'n': 2, 'rounds': 2, 'agents': 1, 'ops': [(2, 'send', 'p3', 2, None), (4, 'create'), (4, 'create')]}
+case = {'n': 2, 'rounds': 2, 'agents': 1, 'ops': [(1, 'send', 'd0', 0, 0.5)]}
 bad = run(case)
 print("script:", case)
 print("FAIL: " + bad if bad else "PASS")
